@@ -16,13 +16,14 @@ git diff --stat | tail -3
 if git diff --name-only | grep -q "_test.go"; then echo "PATCH TOUCHES TESTS"; fi
 go build ./... || { echo "BUILD FAILS"; exit 1; }
 go vet ./... >/dev/null 2>&1 || echo "(go vet complains)"
-go test -vet=off -count=1 ./... > "$OUT/suite.log" 2>&1
+# own network namespace: several suites running at once on this machine collide on the fixed ports of tests/*
+unshare -n sh -c 'ip link set lo up; go test -vet=off -count=1 ./...' > "$OUT/suite.log" 2>&1
 rc=$?
 if [ $rc -ne 0 ]; then
   grep -a "^--- FAIL\|^FAIL" "$OUT/suite.log" | head
   # one retry of failing packages (the baseline lists a flaky timing test)
   pk=$(grep -a "^FAIL" "$OUT/suite.log" | awk '{print $2}' | grep / | sort -u)
-  if [ -n "$pk" ]; then go test -vet=off -count=1 $pk > "$OUT/suite2.log" 2>&1 && rc=0; fi
+  if [ -n "$pk" ]; then unshare -n sh -c "ip link set lo up; go test -vet=off -count=1 $pk" > "$OUT/suite2.log" 2>&1 && rc=0; fi
 fi
 echo "SUITE rc=$rc"
 echo "--- meta.json"; cat "$OUT/meta.json"; echo; ls "$OUT/demo"
